@@ -40,7 +40,8 @@ class Gen:
         self.r = random.Random(seed)
         self.rejected_cond = 0
 
-    def q(self, lo=-3, hi=3, dens=(1, 1, 2, 4)):
+    def q(self, lo=-3, hi=3, dens=(1, 1, 2, 4, 3)):
+        # (thirds: values that no binary float represents exactly, so that a silent cast to a narrower dtype is visible)
         return Fr(self.r.randint(lo, hi), self.r.choice(dens))
 
     def qnz(self, **kw):
